@@ -2012,8 +2012,44 @@ class Body:
                 for o in ops:
                     if o[0] in ("c", "m") and not o[1][1]:
                         used.add(o[1][0])
-            self._symc = {l_ for l_ in dests if l_ in used}
+            # ... or tested directly in more than one place (`let has_host = flags.contains(H); if has_host {..} .. if has_host {..}`)
+            tested = defaultdict(set)
+            for b_ in range(self.n):
+                t_ = self.term(b_)
+                if t_["k"] == "switch":
+                    p_ = op_place(t_["discr"])
+                    if p_ is not None and not p_[1]:
+                        tested[p_[0]].add(b_)
+            self._symc = {l_ for l_ in dests if l_ in used or len(tested.get(l_, ())) >= 2}
         return self._symc
+
+    def _pure_question(self, t):
+        """identity of a call whose answer depends on nothing but its (unchanged) arguments: today `contains` of a flag set (bitflags)"""
+        cal = t.get("callee") or {}
+        if cal.get("name") != "contains" or not (cal.get("self_adt") or "").endswith("Flags") or not t.get("dest") or t["dest"][1]:
+            return None
+        dl = t["dest"][0]
+        if dl >= len(self.locals) or self.locals[dl] != "bool":
+            return None
+        args = []
+        for a in t.get("args", []):
+            if a[0] == "k":
+                args.append(("const", str(a[1].get("item") or a[1].get("v"))))
+                continue
+            pl = a[1]
+            if pl[1]:
+                return None
+            loc = pl[0]
+            for _ in range(4):
+                d_ = self.single_def(loc)
+                if d_ is not None and d_[0] == "assign" and d_[3][0] == "ref" and not d_[3][1] and not d_[3][2][1]:
+                    loc = d_[3][2][0]
+                elif d_ is not None and d_[0] == "assign" and d_[3][0] == "use" and d_[3][1][0] in ("c", "m") and not d_[3][1][1][1]:
+                    loc = d_[3][1][1][0]
+                else:
+                    break
+            args.append(("loc", loc))
+        return ("pure", cal.get("def"), tuple(args))
 
     def _cp_transfer(self, b, env, sym=False):
         d = dict(env)
@@ -2021,6 +2057,12 @@ class Body:
         def kill(loc):
             for k in [k for k in d if k[0] == loc]:
                 d.pop(k, None)
+            if sym:
+                # what a pure question about this local answered is no longer known
+                def about(id_):
+                    return isinstance(id_, tuple) and id_ and id_[0] == "pure" and ("loc", loc) in id_[2]
+                for k in [k for k, v in d.items() if (k[0] == "K" and about(k[1])) or (isinstance(v, tuple) and len(v) == 2 and v[0] == "sym" and about(v[1]))]:
+                    d.pop(k, None)
 
         def const_of(op):
             if op[0] == "k":
@@ -2129,7 +2171,11 @@ class Body:
                         d[(dl, "variant")] = 0 if av == 0 else 1
                     elif aty.startswith("core::option::Option<"):
                         d[(dl, "variant")] = 0 if av == 1 else 1
-            if sym and not t["dest"][1] and dl in self._sym_candidates():
+            pure_id = self._pure_question(t) if sym and not t["dest"][1] else None
+            if pure_id is not None:
+                # the same question about the same unchanged value has the same answer wherever it is asked (`flags.contains(HAS_HOST)` twice)
+                d[(dl, ())] = ("sym", pure_id)
+            elif sym and not t["dest"][1] and dl in self._sym_candidates():
                 # an unknown bool that is carried around: every copy of it answers a test the same way
                 for k in [k for k, v in d.items() if v == ("sym", b) or k == ("K", b)]:
                     d.pop(k, None)
@@ -2139,6 +2185,49 @@ class Body:
             for k in [k for k in d if k[0] == "K" and k[1] not in held]:
                 d.pop(k, None)
         return d
+
+    def cp_successors(self, b, env):
+        """[(successor, environment on that edge)] of block b entered with `env`, under constant propagation: constants, known variants and the
+        answers already given for a carried bool decide the branch."""
+        d = self._cp_transfer(b, env, sym=True)
+        t = self.term(b)
+        succs = self.succ[b]
+        learn = None
+        val_id = None
+        if t["k"] == "switch":
+            p_ = op_place(t["discr"])
+            if p_ is not None and not p_[1] and (p_[0], ()) in d:
+                val = d[(p_[0], ())]
+                if isinstance(val, tuple) and val and val[0] == "sym":
+                    val_id = val[1]
+                    known = d.get(("K", val[1]))
+                    if known is None:
+                        # first test of this value on the path: both ways are open, and each remembers its answer
+                        arms_ = [((int(v_) if isinstance(v_, str) else v_), tb) for v_, tb in t["arms"]]
+                        learn = {}
+                        for v_, tb in arms_:
+                            learn.setdefault(tb, v_)
+                        if len(arms_) == 1 and arms_[0][0] in (0, 1) and t["otherwise"] not in learn:
+                            learn[t["otherwise"]] = 1 - arms_[0][0]
+                        val = None
+                    else:
+                        val = known
+                if val is not None:
+                    val = int(val) if isinstance(val, bool) else val
+                    hit = [tb for v_, tb in t["arms"] if (int(v_) if isinstance(v_, str) else v_) == val]
+                    succs = hit[:1] if hit else [t["otherwise"]]
+        env2 = frozenset(d.items())
+        out = []
+        for s_ in succs:
+            if self.is_cleanup(s_):
+                continue
+            if learn is not None and s_ in learn:
+                d2 = dict(d)
+                d2[("K", val_id)] = learn[s_]
+                out.append((s_, frozenset(d2.items())))
+            else:
+                out.append((s_, env2))
+        return out
 
     def reachable_cp(self, start_blocks, cap=40000, avoid=(), cut=()):
         """Blocks reachable from start_blocks when constants and known variants (through aggregates, moves, `?`) decide the matches they reach."""
@@ -2151,41 +2240,9 @@ class Body:
                 continue
             seen.add((b, env))
             blocks.add(b)
-            d = self._cp_transfer(b, env, sym=True)
-            t = self.term(b)
-            succs = self.succ[b]
-            learn = None
-            if t["k"] == "switch":
-                p_ = op_place(t["discr"])
-                if p_ is not None and not p_[1] and (p_[0], ()) in d:
-                    val = d[(p_[0], ())]
-                    if isinstance(val, tuple) and val and val[0] == "sym":
-                        val_id = val[1]
-                        known = d.get(("K", val[1]))
-                        if known is None:
-                            # first test of this value on the path: both ways are open, and each remembers its answer
-                            arms_ = [((int(v_) if isinstance(v_, str) else v_), tb) for v_, tb in t["arms"]]
-                            learn = {}
-                            for v_, tb in arms_:
-                                learn.setdefault(tb, v_)
-                            if len(arms_) == 1 and arms_[0][0] in (0, 1) and t["otherwise"] not in learn:
-                                learn[t["otherwise"]] = 1 - arms_[0][0]
-                            val = None
-                        else:
-                            val = known
-                    if val is not None:
-                        val = int(val) if isinstance(val, bool) else val
-                        hit = [tb for v_, tb in t["arms"] if (int(v_) if isinstance(v_, str) else v_) == val]
-                        succs = hit[:1] if hit else [t["otherwise"]]
-            env2 = frozenset(d.items())
-            for s_ in succs:
-                if not self.is_cleanup(s_) and (b, s_) not in cut:
-                    if learn is not None and s_ in learn:
-                        d2 = dict(d)
-                        d2[("K", val_id)] = learn[s_]
-                        dq.append((s_, frozenset(d2.items())))
-                    else:
-                        dq.append((s_, env2))
+            for s_, e_ in self.cp_successors(b, env):
+                if (b, s_) not in cut:
+                    dq.append((s_, e_))
         if cap <= 0:
             if avoid or cut:
                 seen_b, st = set(), [s_ for s_ in start_blocks if s_ not in avoid]
